@@ -32,7 +32,7 @@ def HasEmpty (m : Map) : Prop := ∃ (i : Nat) (e : Entry), m.data[i]? = some e 
 
 /-- what every operation preserves -/
 structure WInv (ep : Nat) (m : Map) : Prop where
-  pow2 : m.capacity = 0 ∨ ∃ n, m.capacity = 2 ^ n
+  pow2 : m.capacity = 0 ∨ (8 ≤ m.capacity ∧ ∃ n, m.capacity = 2 ^ n)
   len : m.data.length = m.capacity
   cnt : m.entries = m.data.countP (fun (e : Entry) => decide (1 < e.key))
   nodup : NoDup m.data
